@@ -28,6 +28,10 @@ NAMES = ["x", "y", "z", "x0", "x1", "a"]
 VALS = [0.0, 1.0, -1.0, 2.0, -2.0, 0.5, -0.5, 1.5, 2.5, -2.5, 3.0, -3.0, 0.25, 4.0, -4.0, 5.5, -5.5, 1e-3]
 
 
+_LAMBDA_MODULES = [{"sign": lambda v: (v > 0) - (v < 0), "Abs": abs, "Mod": lambda a, b: a % b, "Max": max, "Min": min,
+                    "Heaviside": lambda v: 1.0 if v > 0 else (0.5 if v == 0 else 0.0)}, "math"]
+
+
 def sym():
     with cy.quiet():
         import cyecca.symbolic as s
@@ -303,7 +307,7 @@ def _double_eval_agrees(expr, point, g, binding=None):
             for name, target in b.items():
                 e = e.replace(tmp[name], USER_SYM[target])
         keys = sorted(str(s_) for s_ in e.free_symbols)
-        f = sympy.lambdify([sympy.Symbol(k) for k in keys], e, modules="math")
+        f = sympy.lambdify([sympy.Symbol(k) for k in keys], e, modules=_LAMBDA_MODULES)
         v = float(f(*[float(point[k]) for k in keys]))
         return math.isfinite(v) and abs(v - g) <= 1e-9 * (1 + abs(v)) * 1e-2
     except Exception:
@@ -408,6 +412,19 @@ def check_s2c(case, must_convert=True):
         return "raised"
     except Exception as e:
         if must_convert:
+            if isinstance(e, (ArithmeticError, ValueError)):
+                # the converter evaluates constant sub-expressions eagerly: 1/sin(f1(0)) raises ZeroDivisionError.  That is
+                # "raises an error" for an expression that has no value anywhere - only a violation if the expression is
+                # defined at some generated point
+                syms_ = {}
+                t_ = case["tree"]
+                e_ = sympy.Matrix([[to_sympy(x_, syms_) for x_ in row] for row in t_[1]]) if t_[0] == "mat" else to_sympy(t_, syms_)
+                pts = [case["point"]] + [{n: v_ for n in NAMES} for v_ in (0.5, -1.5, 2.5)]
+                items_ = list(e_) if isinstance(e_, sympy.MatrixBase) else [e_]
+                defined = any(all(as_real(sympy_ref_value(it, p_)) is not None for it in items_) for p_ in pts)
+                if not defined:
+                    from vlib.harness import Discard
+                    raise Discard()
             raise
         return "raised"
     free = sorted(str(s_) for s_ in expr.free_symbols)
@@ -778,6 +795,21 @@ def check_c2s(case):
                 Jf = ca.Function("Jf", [tb2[n] for n in names] + [dv], [ca.densify(ca.jacobian(yp, dv))])
                 Jv = np.array(Jf.call([ca.DM(case["point"][n]) for n in names] + [ca.DM.zeros(len(perts))])[0], float)
                 roundoff = float(np.sum(np.abs(Jv))) * 2.0**-52 if np.all(np.isfinite(Jv)) else float("inf")
+                # discontinuous operators (fmod, floor, comparisons) have zero derivative next to a jump: also evaluate the source
+                # with every intermediate result moved by +-1 ulp; if that changes the value, CasADi's own rounding decides it
+                Yf = ca.Function("Yf", [tb2[n] for n in names] + [dv], [ca.densify(yp)])
+                y0 = float(np.array(Yf.call([ca.DM(case["point"][n]) for n in names] + [ca.DM.zeros(len(perts))])[0], float)[0, 0])
+                eps_ = 2.0**-52
+                for pat in (1.0, -1.0, None, "alt"):
+                    if pat is None:
+                        dvals = [eps_ * (1 if (k_ * 7919) % 3 else -1) for k_ in range(len(perts))]
+                    elif pat == "alt":
+                        dvals = [eps_ * (1 if k_ % 2 else -1) for k_ in range(len(perts))]
+                    else:
+                        dvals = [eps_ * pat] * len(perts)
+                    y1 = float(np.array(Yf.call([ca.DM(case["point"][n]) for n in names] + [ca.DM(dvals)])[0], float)[0, 0])
+                    if not math.isfinite(y1) or abs(y1 - y0) > 1e-9 * (1 + abs(y0)):
+                        roundoff = float("inf")
         except Exception:
             roundoff = None
     call = lambda vals: np.array(F.call([ca.DM(v) for v in vals])[0], float)
@@ -814,7 +846,7 @@ def check_c2s(case):
             # fall back to lazy numeric evaluation (lambdify to Python's math, ternaries evaluate one branch only)
             try:
                 keys = sorted(smap)
-                fl_ = sympy.lambdify([smap[k] for k in keys], e, modules="math")
+                fl_ = sympy.lambdify([smap[k] for k in keys], e, modules=_LAMBDA_MODULES)
                 v = fl_(*[case["point"][k] for k in keys])
                 v = bool(v) if isinstance(v, (bool, np.bool_)) else sympy.Float(float(v), 30)
             except Exception:
@@ -839,12 +871,21 @@ def check_c2s(case):
             # quotient next to an integer, ...), not from the conversion
             try:
                 keys_ = sorted(smap)
-                vd = sympy.lambdify([smap[k] for k in keys_], e, modules="math")(*[float(case["point"][k]) for k in keys_])
+                vd = sympy.lambdify([smap[k] for k in keys_], e, modules=_LAMBDA_MODULES)(*[float(case["point"][k]) for k in keys_])
                 vd = (1.0 if vd else 0.0) if isinstance(vd, (bool, np.bool_)) else float(vd)
                 if math.isfinite(vd) and abs(vd - g) <= 1e-12 * abs(g) + 1e-300:
                     continue
             except Exception:
                 pass
+            # the source expression itself in 50-digit arithmetic: if that disagrees with CasADi's double result, rounding of
+            # an intermediate decides the value at this point (exact ties of fmod / floor / comparisons): not a conversion error
+            if t[0] != "mat":
+                try:
+                    exact = mp_eval_tree(t, case["point"])
+                    if isinstance(exact, complex) or not math.isfinite(exact) or abs(exact - g) > 1e-9 * abs(g) + floor:
+                        continue
+                except Exception:
+                    continue
             # discount ill-conditioned points (value jumps under a 1e-12 perturbation of the inputs)
             pert = call([case["point"][n] * (1 + 1e-12) + 1e-13 for n in names])[i, j]
             pert2 = call([case["point"][n] * (1 - 1e-12) - 1e-13 for n in names])[i, j]
@@ -855,6 +896,68 @@ def check_c2s(case):
                 str(expr[i, j])[:160], g, {n: case["point"][n] for n in names}, str(e)[:160], vv), tree=t, point=case["point"])
         checked += 1
     require(checked > 0)
+
+
+def mp_eval_tree(t, point, dps=50):
+    """The CasADi-side tree evaluated in 50-digit arithmetic (what the expression means mathematically; selections evaluate
+    only the selected branch).  Used only to decide whether CasADi's own double evaluation is trustworthy at a point: if the
+    two disagree, rounding of intermediates decides the value there (fmod / floor / comparisons at an exact tie such as
+    fmod(1, 1/3)) and the point is discarded."""
+    import mpmath as mp
+
+    with mp.workdps(dps):
+        one, zero = mp.mpf(1), mp.mpf(0)
+        b = lambda v: one if v else zero
+
+        def ev(t):
+            k = t[0]
+            if k == "sym":
+                return mp.mpf(float(point[t[1]]))
+            if k == "const":
+                return mp.mpf(float(t[1]))
+            if k == "if_else":
+                return ev(t[2]) if ev(t[1]) != 0 else ev(t[3])
+            if k == "if_else_zero":
+                return ev(t[2]) if ev(t[1]) != 0 else zero
+            a = [ev(c) for c in t[1:] if isinstance(c, list)]
+            if k == "neg": return -a[0]
+            if k == "sq": return a[0] * a[0]
+            if k == "twice": return 2 * a[0]
+            if k == "inv": return 1 / a[0]
+            if k in ("exp", "log", "sqrt", "sin", "cos", "tan", "asin", "acos", "atan", "floor", "ceil", "erf", "sinh", "cosh", "tanh",
+                     "asinh", "acosh", "atanh", "log1p"):
+                return getattr(mp, k)(a[0])
+            if k == "fabs": return abs(a[0])
+            if k == "sign": return mp.sign(a[0])
+            if k == "not": return b(a[0] == 0)
+            if k == "add": return a[0] + a[1]
+            if k == "sub": return a[0] - a[1]
+            if k == "mul": return a[0] * a[1]
+            if k == "div": return a[0] / a[1]
+            if k == "pow": return a[0] ** a[1]
+            if k == "cpow": return a[0] ** mp.mpf(float(t[2]))
+            if k == "fmod":
+                q = a[0] / a[1]
+                return a[0] - a[1] * (mp.floor(q) if q >= 0 else mp.ceil(q))
+            if k == "remainder":
+                return a[0] - a[1] * mp.nint(a[0] / a[1])  # nint rounds half to even
+            if k == "fmin": return min(a[0], a[1])
+            if k == "fmax": return max(a[0], a[1])
+            if k == "atan2": return mp.atan2(a[0], a[1])
+            if k == "hypot": return mp.hypot(a[0], a[1])
+            if k == "copysign": return abs(a[0]) if a[1] >= 0 else -abs(a[0])
+            if k == "lt": return b(a[0] < a[1])
+            if k == "le": return b(a[0] <= a[1])
+            if k == "eq": return b(a[0] == a[1])
+            if k == "ne": return b(a[0] != a[1])
+            if k == "gt": return b(a[0] > a[1])
+            if k == "ge": return b(a[0] >= a[1])
+            if k == "and": return b(a[0] != 0 and a[1] != 0)
+            if k == "or": return b(a[0] != 0 or a[1] != 0)
+            raise ValueError(k)
+
+        v = ev(t)
+        return complex(v) if isinstance(v, mp.mpc) else float(v)
 
 
 def _is_nan(v):
